@@ -71,7 +71,7 @@ CHECKS = {
          "DESIGN.md §4-C13"),
  "C07": ("exhaustive SGR sequences of <= 3 attribute groups + proptest grammar streams (whole and chunked) against a reference SGR interpreter over the reference VT parser; metamorphic combined == separate and delete-non-SGR relations; libFuzzer target 'sgr' in thorough",
          "Generated-input search with two independent oracles: a reference terminal model (R-SGR over R-VT, own style type) compared per character, and two metamorphic relations that involve only the extractor (combined vs separate sequences; deleting non-SGR sequences). Exhaustive over all sequences of up to three groups from a 57-group representative set, from two start states.",
-         "Trusted: reference SGR interpreter harness/vcore/src/sgr.rs (ECMA-48 / T.416 / xterm / kitty rules as listed in DESIGN.md §3.3). Domain restrictions: direct replacement of one underline kind by another, blink, 22-29, 59, values > 255 and truncated extended colours are not generated.",
+         "Trusted: reference SGR interpreter harness/vcore/src/sgr.rs (ECMA-48 / T.416 / xterm / kitty rules as listed in DESIGN.md §3.3). Domain restrictions: blink, 22-29, 59, values > 255 and truncated extended colours are not generated.",
          "DESIGN.md §3.3, §3.6, §4-C07"),
  "C01": ("bounded-exhaustive byte/character strings + proptest grammar streams against the reference VT parser's visible text (exact oracle), safety invariants on every piece, agreement of all entry points; libFuzzer target 'strip' in thorough",
          "Generated-input search with an explicit oracle: every string up to a bounded length over one representative per byte class, plus seeded escape-rich grammar streams up to several KiB, compared with the visible text computed by an independent reference parser (valid UTF-8) and with safety invariants (sub-slice pieces, valid UTF-8 pieces, no control byte in the output) on all inputs. Agreement on everything explored; no claim beyond the bound.",
